@@ -336,7 +336,12 @@ def stage_transport_group(ctx, drv, nseq):
                 for _ in range(20):
                     if not q.qsize:
                         break
-                    run_one(sc)
+                    try:
+                        run_one(sc)
+                    except Exception as ex:  # noqa
+                        ctx.violation("transport:task-raised", f"a pull task into a Transport group raised {type(ex).__name__}: {ex}",
+                                      {"kind": "transport-reserve", "events": evs})
+                        break
                 r_ = reserved()
                 if q.qsize + q.inprogress_size + q.deferred_size == 0 and any(r_.values()):
                     ctx.violation("transport:leak", f"every transfer has ended but bytes remain reserved on the group's nodes: {r_}",
